@@ -29,6 +29,8 @@ int  vs_spawn(vs_fn fn, void *arg);                    /* returns tid 0,1,2,... 
 void vs_policy_random(uint64_t seed);                  /* uniform among enabled threads */
 void vs_policy_pct(uint64_t seed, int depth);          /* PCT-style priorities with `depth` change points */
 void vs_policy_replay(const char *schedule);           /* "0 1 1! 2~ ..." */
+void vs_policy_prefix(const char *schedule);           /* replay the prefix, then run non-preemptively (lowest tid first) */
+void vs_trace_enabled(int on);                         /* vs_print adds "#enabled <hex mask per step>" (systematic exploration) */
 void vs_set_spurious(int cas_permille, int cv_permille);/* probability of spurious weak-CAS failure / condvar wake-up */
 void vs_set_max_steps(long n);
 void vs_kill_after(int tid, long k);                   /* after vs_spawn: thread `tid` takes exactly k steps, then is never
